@@ -147,6 +147,16 @@ CHECKS = {
               "shapes (exhaustive)."),
         note="Trusted: forced host-platform devices (index/padding/gather logic, not a real backend's collectives). Tolerance 1e-6 (1e-4 in batched-eigh and int16 modes), stated in evidence.assumptions.",
         design="DESIGN.md section 3, C13"),
+    "C14": dict(
+        category="exploration",
+        technique="property-based testing with every interruption point enumerated: generated optimizer configurations / trees / histories, state serialised with flax msgpack at each k in 0..T and restored into a freshly constructed optimizer, bytewise comparison with the uninterrupted run",
+        text=("For Distributed Shampoo (full, int8/int16-quantised under pmap, compressed, frequent directions with gradient averaging), "
+              "SM3, Tearfree Shampoo and Tearfree Sketchy, with intervals > 1, start steps inside the history and momentum on "
+              "(~130 configurations quick, all k per configuration): to_bytes/from_bytes round trip is the identity on every leaf, the "
+              "restored tree matches init()'s template of a fresh optimizer object, all subsequent updates and states are byte-identical "
+              "to the uninterrupted run, and two independently constructed optimizers give identical runs."),
+        note="Trusted: flax.serialization; restored NumPy leaves enter through the jit/pmap argument boundary (documented domain).",
+        design="DESIGN.md section 3, C14"),
 }
 
 NOT_YET = {}
